@@ -18,7 +18,7 @@ LEVEL = "exploration"
 BUDGET = {"quick": (4000, 35), "thorough": (600_000, 540)}
 RULE = ("scripts of 2-10 operations (service publishes configuration i with a new hash; register / unregister in "
         "code; next poll answers with RPC error / 0.5-12 s delay / garbage bytes / a response with one "
-        "uninterpretable tracepoint; sleeps of 0-25 s) x an application thread running through the probed lines meanwhile x worker stalls x seeded schedules with a pre-emption point at "
+        "uninterpretable tracepoint; sleeps of 0-25 s; shutdown + start of the agent, with a slow poll that comes back with a new configuration still in flight and register/unregister calls while stopped) x an application thread running through the probed lines meanwhile x worker stalls x seeded schedules with a pre-emption point at "
         "every line of the configuration/task/poll code x targeted switches (registration exactly at a poll); then 3 "
         "fault-free poll intervals and a probe; non-trivial = at least two configuration updates or an update plus a "
         "registration were applied; distinct = distinct (script, final outcome, thread order) keys")
@@ -35,7 +35,7 @@ TECHNIQUE = "deterministic simulation: scripted service + fault injection + line
 
 N_SVC = 6
 N_REG = 3
-PROBE_LINES = 10
+PROBE_LINES = 12
 
 PROBE_SRC = "def probe_fn():\n" + "".join("    probe(%d)\n" % i for i in range(1, PROBE_LINES + 1)) + "    return 0\n"
 
@@ -62,6 +62,20 @@ def generate(seed, tier):
             ops.append({"op": "register", "reg": regs, "at_poll": r.random() < 0.5})
         elif k < 0.55 and live:
             ops.append({"op": "unregister", "reg": live.pop(r.randrange(len(live)))})
+        elif k < 0.62:
+            # the agent is shut down and started again: while a slow poll that will come back with a new configuration
+            # is still in flight, and/or with registrations attempted while it is stopped (those are refused)
+            op = {"op": "restart", "inflight": r.random() < 0.6, "delay": r.choice((0.5, 3.0)), "stopped": [],
+                  "gap": r.choice((0.0, 2.0, 12.0))}
+            if op["inflight"]:
+                cfg_i += 1
+                op["cfg"] = cfg_i
+                op["tps"] = sorted(r.sample(range(1, N_SVC + 1), r.randrange(0, 4)))
+            if r.random() < 0.5 and live:
+                op["stopped"].append(["unregister", live.pop(r.randrange(len(live)))])
+            if r.random() < 0.4:
+                op["stopped"].append(["register", N_REG + 1])
+            ops.append(op)
         elif k < 0.75:
             # odd-type: an answer that decodes, of a response type this client does not know (no hash, no tracepoints)
             ops.append({"op": "fault", "kind": r.choice(("error", "error", "delay", "garbage", "odd-type")),
@@ -81,7 +95,12 @@ def generate(seed, tier):
             ops.append({"op": "sleep", "s": 10.01})
             ops.append({"op": "publish", "cfg": 2, "tps": sorted(r.sample(range(1, N_SVC + 1), r.randrange(0, 3))),
                         "bad": False, "odd_metric": False})
-        ops.append({"op": "register", "reg": 1, "at_poll": True})
+        if r.random() < 0.3:
+            ops.append({"op": "restart", "inflight": True, "delay": r.choice((0.5, 3.0)), "cfg": 3, "gap": 0.0,
+                        "tps": sorted(r.sample(range(1, N_SVC + 1), r.randrange(0, 3))),
+                        "stopped": [["register", N_REG + 1]] if r.random() < 0.5 else []})
+        else:
+            ops.append({"op": "register", "reg": 1, "at_poll": True})
     knobs = common.race_knobs(r, stall_p=r.choice((0.0, 0.0005, 0.003)), stall_ns=[10_000_000, 2_000_000_000])
     return {"ops": ops, "line_level": short or r.random() < 0.7, "prober": r.random() < (0.75 if short else 0.5), "knobs": knobs,
             "tmode": r.randrange(4),
@@ -224,9 +243,15 @@ def execute(s, ch):
                 # hits arrive exactly while a configuration update is being applied on a worker (and now and then
                 # in between), so that the handler is matching events at the instant its configuration is replaced
                 while not prober_stop["v"]:
-                    k.block_until(lambda: in_update["n"] > 0 or prober_stop["v"], k.now_ns + 370_000_000, why="prober")
+                    k.block_until(lambda: (in_update["n"] > 0 and not prober_stop.get("pause")) or prober_stop["v"],
+                                  k.now_ns + 370_000_000, why="prober")
                     if prober_stop["v"]:
                         break
+                    if prober_stop.get("pause"):
+                        # the agent is shut down: nothing to hit (and nothing in a stopped handler ever yields)
+                        k.sleep(0.37)
+                        continue
+                    k.yield_point("prober")
                     gb["probe_fn"]()
                     k.probe("prober_pass_during_update", 1 if in_update["n"] > 0 else 0)
             prober_t = shims.SimThread(target=prober, name="prober")
@@ -284,6 +309,53 @@ def execute(s, ch):
                     live_regs.discard(o["reg"])
             elif o["op"] == "fault":
                 pending_faults.append(o)
+            elif o["op"] == "restart":
+                k.fault("restart")
+                if o.get("inflight"):
+                    # the next poll is slow; the service changes its configuration while that poll is on the wire, and
+                    # the agent is shut down before the answer (an UPDATE) arrives
+                    pending_faults.insert(0, {"kind": "delay", "delay": o["delay"]})
+                    there = {"v": False}
+                    poll_hooks.append(lambda there=there: there.__setitem__("v", True))
+                    if k.block_until(lambda: there["v"], k.now_ns + 11 * 10**9, why="await-poll"):
+                        svc.set_config([tp_proto(i) for i in o["tps"]], "h%d" % o["cfg"])
+                        k.fault("update_answered_during_shutdown")
+                prober_stop["pause"] = True
+                try:
+                    w.deep.shutdown()
+                except kernel.SimKilled:
+                    raise
+                except BaseException as e:  # noqa
+                    viol.append(V("shutdown-raised:%s" % type(e).__name__, repr(e)))
+                k.sleep(o.get("gap", 0.0))
+                again = []
+                for what, reg in o.get("stopped", ()):
+                    # a stopped agent may refuse these (visibly); what it must not do is half apply them
+                    try:
+                        if what == "register":
+                            handles[reg] = w.deep.register_tracepoint(p.basename, 1 + N_SVC + reg,
+                                                                      {"fire_count": "-1", "fire_period": "0"}, [])
+                            live_regs.add(reg)
+                        elif handles.get(reg) is not None:
+                            handles[reg].unregister()
+                            live_regs.discard(reg)
+                    except kernel.SimKilled:
+                        raise
+                    except BaseException as e:  # noqa
+                        k.fault("refused_while_stopped")
+                        if what == "unregister":
+                            again.append(reg)
+                w.start()
+                prober_stop["pause"] = False
+                for reg in again:
+                    # the refused unregister is repeated once the agent runs again: now it has to take effect
+                    try:
+                        handles[reg].unregister()
+                    except kernel.SimKilled:
+                        raise
+                    except BaseException as e:  # noqa
+                        viol.append(V("unregister-raised:%s" % type(e).__name__, repr(e)))
+                    live_regs.discard(reg)
         # ------------------------------------------------ faults stop: three poll intervals, then quiescence
         prober_stop["v"] = True
         if prober_t is not None:
